@@ -59,6 +59,11 @@ def families(tier, seed):
         def run(sh=sh, params=params):
             return harness.verify(cfn.h_make_functions, sh, params, kind='context')
         out.append(dict(name=f'make_functions {sh.name}', run=run, label='per-shape'))
+        params = dict(inputs=ins, vrs=outs, dup=True)
+
+        def run(sh=sh, params=params):
+            return harness.verify(cfn.h_make_functions, sh, params, kind='context')
+        out.append(dict(name=f'make_functions (outputs listed in reverse, one twice) {sh.name}', run=run, label='per-shape'))
         if k >= 2:
             # one declared output that the relation ignores
             params = dict(inputs=ins, vrs=outs, r_bits=ins + outs[:-1])
